@@ -20,6 +20,8 @@ _real_splu = spl.splu
 
 def exact_inverse(M):
     n = M.shape[0]
+    if any(isinstance(x, SC) for x in np.asarray(M, dtype=object).ravel()):
+        return None
     A = [[SR.lift(M[i, j]).c for j in range(n)] for i in range(n)]
     if any(x is None for row in A for x in row):
         return None
